@@ -20,14 +20,18 @@ MINIMISE_OPS = True
 EVIDENCE = {
     'rule': 'Each run is a history of 1-4 connection attempts on one Crazyflie object against a generated '
             'firmware model; per attempt the URI kind, sync/async API, link-failure point k (packet count), '
-            'failure reporting thread, close instant and scheduler knobs are drawn from the run seed.',
+            'failure reporting thread (incl. "reported by the driver thread before connect() returns"), close instant and '
+            'scheduler knobs are drawn from the run seed.  12 % of the histories run over the real radio stack (RadioDriver, '
+            'Crazyradio, fake dongle, ESB/safelink peer) and 8 % over the real USB stack (UsbDriver, CfUsb, fake pyusb '
+            'device that is unplugged) instead of SimLink.',
     'directed': 'link failure after every k-th exchanged packet (k = 0..handshake length) x {driver thread, '
                 'sender thread} x {async, sync} on a small fixed device',
     'real': ['cflib.crazyflie.Crazyflie', '_IncomingPacketHandler', 'Param/_ParamUpdater/_ExtendedTypeFetcher',
              'Log', 'Memory', 'PlatformService', 'TocFetcher', 'LinkStatistics/Latency', 'SyncCrazyflie',
              'cflib.utils.callbacks.Caller', 'CRTPPacket', 'CPython threading.Condition/Event/Semaphore/Timer logic, '
              'queue.Queue logic'],
-    'stub': ['SimLink (sim:// CRTP driver)', 'SimCF firmware model', 'SimLock/SimThread/virtual clock'],
+    'stub': ['SimLink (sim:// CRTP driver)', 'SimCF firmware model', 'SimLock/SimThread/virtual clock',
+             'FakeDongle + NrfPeer + air (radio variant)', 'fake pyusb Crazyflie device (USB variant)'],
     'assumptions': [
         'the parameter table has at least one entry (with an empty table the library never signals fully_connected; '
         'table-size edge cases belong to C03)',
@@ -37,6 +41,11 @@ EVIDENCE = {
         '(after an optional 2 s block, as RadioDriver does on a full out-queue)',
         'when the error report races with the first packet (packet delivered to the driver but link_established not '
         'yet signalled) either connection_failed or disconnected+connection_lost is accepted',
+        'known race families (known_findings.json) cover life-cycle event anomalies of an attempt whose history is '
+        'genuinely concurrent (tear-down on another thread while the dispatcher dispatches - incl. a dispatch that begins '
+        'between the driver close and the end of the disconnect handlers -, close/error during open_link); thread deaths, '
+        'dead-locks, exceptions out of the API and blocking calls that never return are never covered, except a blocking '
+        'open after a concurrent tear-down (the set-up of that attempt can stall)',
     ],
 }
 
